@@ -1,7 +1,7 @@
 //! Single-game protocols (C07): Mindustry, Savage 2, FFOW, The Ship, Battalion 1944, Eco.
 use crate::canon::*;
 use crate::net::*;
-use gamedig::games::{mindustry, savage2};
+use gamedig::games::{ffow, mindustry, savage2};
 
 pub fn entries() -> Vec<(&'static str, crate::EntryFn)> {
     vec![
@@ -9,6 +9,8 @@ pub fn entries() -> Vec<(&'static str, crate::EntryFn)> {
         ("mindustry_dp", entry_mindustry_dp),
         ("savage2", entry_savage2),
         ("savage2_dp", entry_savage2_dp),
+        ("ffow", entry_ffow),
+        ("ffow_dp", entry_ffow_dp),
     ]
 }
 
@@ -92,3 +94,56 @@ fn savage2_with(args: &[&str], default_port: bool) -> String {
 
 fn entry_savage2(args: &[&str]) -> String { savage2_with(args, false) }
 fn entry_savage2_dp(args: &[&str]) -> String { savage2_with(args, true) }
+
+// ---------------------------------------------------------------- Frontlines: Fuel of War
+
+fn show_env(e: &gamedig::protocols::valve::Environment) -> String {
+    use gamedig::protocols::valve::Environment::*;
+    match e {
+        Linux => "l",
+        Windows => "w",
+        Mac => "m",
+    }
+    .to_string()
+}
+
+fn show_ffow(r: &ffow::Response) -> String {
+    format!(
+        "FF{{{}}}",
+        [
+            r.protocol_version.to_string(),
+            show_str(&r.name),
+            show_str(&r.active_mod),
+            show_str(&r.game_mode),
+            show_str(&r.game_version),
+            show_str(&r.description),
+            show_str(&r.map),
+            r.players_online.to_string(),
+            r.players_maximum.to_string(),
+            crate::valve::show_server(&r.server_type),
+            show_env(&r.environment_type),
+            show_bool(r.has_password),
+            show_bool(r.vac_secured),
+            r.round.to_string(),
+            r.rounds_maximum.to_string(),
+            r.time_left.to_string(),
+        ]
+        .join(";")
+    )
+}
+
+fn ffow_with(args: &[&str], default_port: bool) -> String {
+    if args.len() < 3 {
+        return "bad-case".into();
+    }
+    let (Some(port), Some(r), Some(script)) =
+        (args[0].parse::<u16>().ok(), args[1].parse::<usize>().ok(), parse_net_args(&args[2 ..]))
+    else {
+        return "bad-case".into();
+    };
+    let port = if default_port { None } else { Some(port) };
+    run_q(script, || ffow::query_with_timeout(&IP, port, timeout(r)), show_ffow)
+}
+
+fn entry_ffow(args: &[&str]) -> String { ffow_with(args, false) }
+fn entry_ffow_dp(args: &[&str]) -> String { ffow_with(args, true) }
